@@ -164,6 +164,7 @@ func tDict(t *Toks, d *dictionary.Dictionary) {
 
 type dictCase struct {
 	rootName, rootText string
+	rootReq            string // when set: the root is opened through Parser.ParseFile under this name; rootName is the name the opened file reports
 	files              []struct{ req, canon, text string }
 	ignoreIdentical    bool
 }
@@ -173,6 +174,15 @@ func (dc *dictCase) req() Req {
 	r.Bs = [][]byte{[]byte(dc.rootName), []byte(dc.rootText)}
 	for _, f := range dc.files {
 		r.Bs = append(r.Bs, []byte(f.req), []byte(f.canon), []byte(f.text))
+	}
+	if dc.rootReq != "" {
+		known := false
+		for _, f := range dc.files {
+			known = known || f.req == dc.rootReq
+		}
+		if !known {
+			r.Bs = append(r.Bs, []byte(dc.rootReq), []byte(dc.rootName), []byte(dc.rootText))
+		}
 	}
 	r.Zs = []string{Z(b2i(dc.ignoreIdentical)), Z(int64(len(dc.files) + 3))}
 	return r
@@ -198,7 +208,22 @@ func runDictParse(dc *dictCase) (*Toks, *dictionary.Dictionary, *memOpener, bool
 	root := &memFile{name: dc.rootName, r: bytes.NewReader([]byte(dc.rootText)), op: &memOpener{}}
 	var d *dictionary.Dictionary
 	var err error
-	panicked := safely(func() { d, err = p.Parse(root) })
+	var panicked bool
+	if dc.rootReq != "" {
+		// the other entry point: ParseFile opens the root through the Opener (and closes it); what the root is called
+		// in the include graph is what the opened file reports, as for every other file
+		op.files[dc.rootReq] = memEntry{dc.rootName, dc.rootText}
+		op.limit++
+		panicked = safely(func() { d, err = p.ParseFile(dc.rootReq) })
+		if len(op.trace) >= 2 && op.trace[0] == "o:"+dc.rootName && op.trace[len(op.trace)-1] == "c:"+dc.rootName {
+			op.trace = op.trace[1 : len(op.trace)-1]
+			op.maxDepth--
+		} else if !panicked {
+			op.trace = append(op.trace, "r:root not opened first and closed last by ParseFile")
+		}
+	} else {
+		panicked = safely(func() { d, err = p.Parse(root) })
+	}
 	t := &Toks{}
 	switch {
 	case panicked:
